@@ -32,7 +32,7 @@ def one(patch):
 def main():
     d = sys.argv[1]
     j = int(sys.argv[sys.argv.index("-j") + 1]) if "-j" in sys.argv else 6
-    patches = sorted(glob.glob(os.path.join(d, "*.diff")))
+    patches = sorted(os.path.abspath(p) for p in glob.glob(os.path.join(d, "*.diff")))
     bad = 0
     with cf.ThreadPoolExecutor(j) as ex:
         for patch, noisy in ex.map(one, patches):
